@@ -285,3 +285,36 @@ Theorem C20_bridge_molecule_example :
                                    [(0, 1, "SINGLE"); (1, 2, "SINGLE"); (2, 3, "DATIVE")]).
 Proof. exact from_to_mol_example. Qed.
 Print Assumptions C20_bridge_molecule_example.
+
+(* ---- whole molecules (structure part): from_rdkit_molecule then to_rdkit_molecule ---- *)
+(* whatever from_rdkit_molecule accepts (bond ends are atom indices, no negative hydrogen total) is written back without
+   error: the same atoms in the same order ([expect_ratoms]: radical electrons capped at 1, total hydrogens as explicit
+   hydrogens, new atom number as map number) and, bond by bond, a bond between the same two atoms whose type is the image of
+   the original type under the two dictionaries, begin and end possibly exchanged *)
+Theorem C20_bridge_molecule_inverse_to_from : forall (symbol : Z -> string),
+  (forall z e, from_symbol (symbol z) = Some e -> e_num e = z) ->
+  forall keep impls xy ras rbs atoms bonds,
+    from_mol symbol impls xy (ras, rbs) = Ok (atoms, bonds) -> hyd_nonneg ras impls ->
+    (forall bi ei t, In (bi, ei, t) rbs -> 0 <= bi < Z.of_nat (List.length ras) /\ 0 <= ei < Z.of_nat (List.length ras)) ->
+    exists rbs', to_mol keep (atoms, bonds) = Ok (expect_ratoms keep 0 ras impls, rbs') /\ Forall2 rbond_image rbs rbs'.
+Proof. exact to_from_mol. Qed.
+Print Assumptions C20_bridge_molecule_inverse_to_from.
+
+(* for the five invertible types the bond comes back with its type, as it was or with begin and end exchanged *)
+Theorem C20_bridge_molecule_bond_types_to_from : forall rb rb', rbond_image rb rb' ->
+  In (snd rb) ["SINGLE"; "DOUBLE"; "TRIPLE"; "AROMATIC"; "DATIVE"] ->
+  rb' = rb \/ rb' = (snd (fst rb), fst (fst rb), snd rb).
+Proof. exact to_from_mol_invertible_types. Qed.
+Print Assumptions C20_bridge_molecule_bond_types_to_from.
+
+(* non-vacuity: [15NH3+] -> [Cu+] with coordinates and a map number *)
+Theorem C20_bridge_molecule_to_from_example :
+  let ras := [mkR 7 15 1 0 3 0; mkR 29 0 1 0 0 4] in
+  let rbs := [(0, 1, "DATIVE")] in
+  from_mol chython_symbol [0; 0] [(1, 2); (3, 4)] (ras, rbs) =
+    Ok ([(1, mkC 7 (Some 15) 1 false (Some 3) (Some 0) 1 2); (2, mkC 29 None 1 false (Some 0) (Some 4) 3 4)], [(1, 2, 8)]) /\
+  hyd_nonneg ras [0; 0] /\
+  to_mol true ([(1, mkC 7 (Some 15) 1 false (Some 3) (Some 0) 1 2); (2, mkC 29 None 1 false (Some 0) (Some 4) 3 4)], [(1, 2, 8)]) =
+    Ok ([mkR 7 15 1 0 3 1; mkR 29 0 1 0 0 2], rbs).
+Proof. exact to_from_mol_example. Qed.
+Print Assumptions C20_bridge_molecule_to_from_example.
